@@ -97,3 +97,7 @@ def register_all(reg):
     reg("C02", "netx", "model_checking", "explicit-state search of the real SyncBB computations over a virtual FIFO network (all start orders and delivery interleavings, state caching) x bounded-exhaustive instance family",
         "For every binary DCOP of the small-scope family the real ordered graph is built and every reachable state of the real SyncBB computations is visited; every maximal path must end with all computations finished and the held values forming a brute-force-optimal assignment.",
         NETX_NOTE, "DESIGN.md 3 C02")
+
+    reg("C08", "netx", "model_checking", "explicit-state search over a virtual FIFO network of probe computations built on the real SynchronousComputationMixin (all interleavings, start orders; state caching) x send-plan enumeration",
+        "Every connected graph on <=3 (thorough 4) nodes x every send plan (who sends an algorithm message to which neighbours in even/odd rounds, through post_msg or the returned list) is explored over all delivery and start orders up to a 3-round horizon, plus the real DSA-tuto computations; after every step the rounds must be consecutive, the handed dict must hold exactly the algorithm messages the plan sent for that round, and no ComputationException may escape.",
+        NETX_NOTE, "DESIGN.md 3 C08")
